@@ -1,20 +1,357 @@
-//! C13 — not implemented yet (stub).
+//! C13 — number <-> text conversions are exact.
+//!
+//! Every case is a short list of *op lines* (the rendered input), e.g.
+//!
+//! ```text
+//! D 4004000000000000 str            String(x) & friends, Number(String(x)) round trip
+//! D 4004000000000000 radix 7        x.toString(7)
+//! D 4004000000000000 fixed 0        x.toFixed(0)
+//! D 4004000000000000 exp 0          x.toExponential(0)
+//! D 4004000000000000 prec 1         x.toPrecision(1)
+//! T number - "  0x1F "              Number(s)            (also: plus, parsefloat, parseint <radix|u>, numbig)
+//! L 1_000.5e-3                      numeric literal in source text (eval and embedded in a script)
+//! ```
+//!
+//! Doubles reach the script as exact bit patterns (`BigUint64Array`/`Float64Array` pair), results that
+//! are numbers leave it as bit patterns. The expectations come from `/verif/oracle/py_c13.py`
+//! (fractions.Fraction / big integers / repr(float)), which is also where the tape is turned into
+//! op lines (`gen` request) — the generator needs exact arithmetic to build decimal ties and
+//! halfway strings. The comparison for exact ops is string equality on the oracle's expectation;
+//! the oracle's `judge` additionally accepts what ECMA-262 explicitly permits (see py_c13.py).
 
 use crate::driver::{CaseOut, Env, Prop, Stream, Tier};
+use crate::run::{Completion, RunCfg, run};
+use crate::oracle::{Server, verif_root};
+use serde_json::json;
+use std::cell::RefCell;
+use std::collections::HashMap;
+use std::sync::Mutex;
 
 pub struct C13;
+
+const ORACLE: &str = "py_c13.py";
+
+/// Named exclusion switches. Each names an input class with an OPEN finding in /verif/known.d/C13.json;
+/// while the switch is on, the generator drops ops of exactly that class (counted by the label
+/// `excluded-<name>`). Everything else stays checked. `BV_C13_NO_EXCLUDE=1` turns all of them off.
+pub const EXCLUSIONS: &[(&str, bool)] = &[
+    // toExponential(d) where x is an exact decimal tie at d digits (rounds half-even instead of half-up)
+    ("toexponential-tie", true),
+    // toPrecision(p) whose last requested digit lies beyond the 100th decimal place (format!("{:.100}") cut)
+    ("toprecision-deep", true),
+    // toFixed(d), 0 < |x| < 2^-43 and d >= 9 * (leading all-zero 9-digit blocks known to ryu-js): garbage leading digits
+    ("tofixed-small", true),
+    // parseInt, radix in {2,4,8,10,16,32}, value > 2^53 reached through the f64 accumulation path
+    ("parseint-big-exact-radix", true),
+    // Number("0x..."/"0o..."/"0b...") with a value >= 2^53 (f64 accumulation)
+    ("number-nondecimal-big", true),
+    // Number("-inf"), Number("+INFINITY") ...: fast_float2 spellings of infinity
+    ("number-signed-inf-word", true),
+    // Number("0x+1"): sign accepted after a radix prefix
+    ("number-nondecimal-plus", true),
+    // toString(radix), radix not a power of two, |x| < 1/radix or |x| > 2^53: error accumulates beyond 1 ulp
+    ("tostring-radix-drift", true),
+    // 0b1e5, 0o7e1, 017e1 in source text: exponent part accepted after a non-decimal literal
+    ("literal-nondecimal-exponent", true),
+];
+
+fn exclusions() -> Vec<&'static str> {
+    if std::env::var_os("BV_C13_NO_EXCLUDE").is_some() {
+        return vec![];
+    }
+    EXCLUSIONS.iter().filter(|(_, on)| *on).map(|(n, _)| *n).collect()
+}
+
+const PRELUDE: &str = "var B = new BigUint64Array(1), F = new Float64Array(B.buffer);\n\
+function fb(h) { B[0] = BigInt('0x' + h); return F[0]; }\n\
+function tb(v) { if (typeof v !== 'number') return 'type:' + typeof v; if (v !== v) return 'NaN'; F[0] = v; var s = B[0].toString(16); while (s.length < 16) s = '0' + s; return s; }\n";
+
+thread_local! {
+    static SERVER: RefCell<Option<Server>> = const { RefCell::new(None) };
+}
+
+/// One request to the C13 oracle server. The server is started with the system interpreter directly
+/// (`$BV_PYTHON`, else /usr/bin/python3, else `python3`): the `python3` on PATH may be a pyenv shim whose
+/// start-up alone can exceed the per-case watchdog on a loaded machine.
+fn oracle_call(req: serde_json::Value) -> Result<serde_json::Value, String> {
+    SERVER.with(|cell| {
+        let mut g = cell.borrow_mut();
+        if g.is_none() {
+            let py = std::env::var("BV_PYTHON").ok().filter(|p| !p.is_empty()).unwrap_or_else(|| {
+                if std::path::Path::new("/usr/bin/python3").exists() { "/usr/bin/python3".into() } else { "python3".into() }
+            });
+            let cmd = vec![py, "-u".to_string(), format!("{}/oracle/{ORACLE}", verif_root())];
+            *g = Some(Server::spawn(&cmd).map_err(|e| format!("cannot start {cmd:?}: {e}"))?);
+        }
+        g.as_mut().unwrap().call(req)
+    })
+}
+
+fn intern(s: &str) -> &'static str {
+    static TABLE: Mutex<Option<HashMap<String, &'static str>>> = Mutex::new(None);
+    let mut g = TABLE.lock().unwrap();
+    let m = g.get_or_insert_with(HashMap::new);
+    if let Some(v) = m.get(s) {
+        return v;
+    }
+    let leaked: &'static str = Box::leak(s.to_string().into_boxed_str());
+    m.insert(s.to_string(), leaked);
+    leaked
+}
+
+fn is_hex16(s: &str) -> bool {
+    s.len() == 16 && s.bytes().all(|b| b.is_ascii_digit() || (b'a'..=b'f').contains(&b))
+}
+
+fn is_int(s: &str) -> bool {
+    let t = s.strip_prefix('-').unwrap_or(s);
+    !t.is_empty() && t.len() <= 12 && t.bytes().all(|b| b.is_ascii_digit())
+}
+
+/// The JS statement that performs one op and prints exactly one line. `None` = malformed op line.
+fn op_js(line: &str) -> Option<String> {
+    let body = if let Some(rest) = line.strip_prefix("D ") {
+        let p: Vec<&str> = rest.split(' ').collect();
+        if p.len() < 2 || !is_hex16(p[0]) {
+            return None;
+        }
+        let x = format!("fb(\"{}\")", p[0]);
+        let arg = p.get(2).copied();
+        let call = |name: &str| -> Option<String> {
+            let a = arg?;
+            if a == "u" {
+                Some(format!("print({x}.{name}());"))
+            } else if is_int(a) {
+                Some(format!("print({x}.{name}({a}));"))
+            } else {
+                None
+            }
+        };
+        match p[1] {
+            "str" => format!(
+                "var x = {x}; print([String(x), x.toString(), `${{x}}`, '' + x, x.toString(10), JSON.stringify(x), tb(Number(String(x))), tb(+String(x)), tb(parseFloat(String(x)))].join('|'));"
+            ),
+            "radix" => {
+                let a = arg?;
+                if !is_int(a) {
+                    return None;
+                }
+                format!("print({x}.toString({a}));")
+            }
+            "fixed" => call("toFixed")?,
+            "exp" => call("toExponential")?,
+            "prec" => call("toPrecision")?,
+            _ => return None,
+        }
+    } else if let Some(rest) = line.strip_prefix("T ") {
+        let mut it = rest.splitn(3, ' ');
+        let kind = it.next()?;
+        let arg = it.next()?;
+        let js = it.next()?;
+        // the text is a JSON string token with every non-ASCII unit escaped: also a JS string literal
+        if !json_string_token_ok(js) {
+            return None;
+        }
+        let e = match kind {
+            "number" => "Number(s)".to_string(),
+            "plus" => "+s".to_string(),
+            "parsefloat" => "parseFloat(s)".to_string(),
+            "numbig" => "Number(BigInt(s))".to_string(),
+            "parseint" => {
+                if arg == "u" || arg == "-" {
+                    "parseInt(s)".to_string()
+                } else if is_int(arg) {
+                    format!("parseInt(s, {arg})")
+                } else {
+                    return None;
+                }
+            }
+            _ => return None,
+        };
+        format!("var s = {js}; print(tb({e}));")
+    } else if let Some(text) = line.strip_prefix("L ") {
+        if !literal_text_ok(text) {
+            return None;
+        }
+        format!("print(tb(eval(\"({text})\")));")
+    } else {
+        return None;
+    };
+    Some(format!("try {{ {body} }} catch (e) {{ print('throw:' + e.name); }}\n"))
+}
+
+fn literal_text_ok(text: &str) -> bool {
+    !text.is_empty() && text.bytes().all(|b| b.is_ascii_alphanumeric() || matches!(b, b'_' | b'.' | b'+' | b'-'))
+}
+
+/// a double-quoted token of printable ASCII in which `\` only starts JSON escapes and `"` never occurs unescaped
+fn json_string_token_ok(js: &str) -> bool {
+    let b = js.as_bytes();
+    if b.len() < 2 || b[0] != b'"' || b[b.len() - 1] != b'"' {
+        return false;
+    }
+    let mut i = 1;
+    while i < b.len() - 1 {
+        match b[i] {
+            b'\\' => {
+                let Some(&n) = b.get(i + 1) else { return false };
+                if i + 1 >= b.len() - 1 {
+                    return false;
+                }
+                match n {
+                    b'"' | b'\\' | b'/' | b'b' | b'f' | b'n' | b'r' | b't' => i += 2,
+                    b'u' => {
+                        if i + 6 > b.len() - 1 || !b[i + 2..i + 6].iter().all(u8::is_ascii_hexdigit) {
+                            return false;
+                        }
+                        i += 6;
+                    }
+                    _ => return false,
+                }
+            }
+            b'"' => return false,
+            0x20..=0x7e => i += 1,
+            _ => return false,
+        }
+    }
+    i == b.len() - 1
+}
+
+/// Run the ops in boa; one printed line per op.
+fn run_ops(ops: &[String]) -> Result<Vec<String>, (String, String)> {
+    let mut src = String::from(PRELUDE);
+    for l in ops {
+        match op_js(l) {
+            Some(js) => src.push_str(&js),
+            None => return Err(("malformed-op-line".into(), l.clone())),
+        }
+    }
+    let t = run(&src, &RunCfg::default());
+    if !matches!(t.completion, Completion::Value(_)) || t.prints.len() != ops.len() {
+        let c = t.completion.render();
+        let short: String = c.chars().take(80).collect();
+        // which op was running: the first one without a print
+        let at = ops.get(t.prints.len()).cloned().unwrap_or_default();
+        return Err((format!("script abnormal: {short}"), format!("completion {c} after {} of {} ops; next op: {at}\n{src}", t.prints.len(), ops.len())));
+    }
+    let mut out = t.prints;
+    // literals are also checked embedded in a script of their own (the lexer on real source text, not through eval)
+    for (i, l) in ops.iter().enumerate() {
+        if let Some(text) = l.strip_prefix("L ") {
+            let s2 = format!("{PRELUDE}print(tb(({text})));\n");
+            let t2 = run(&s2, &RunCfg::default());
+            let direct = match (&t2.completion, t2.prints.first()) {
+                (Completion::Value(_), Some(p)) if t2.prints.len() == 1 => p.clone(),
+                (Completion::EarlySyntaxError, _) => "throw:SyntaxError".to_string(),
+                (c, _) => format!("abnormal:{}", c.render().chars().take(60).collect::<String>()),
+            };
+            out[i] = format!("{}|{direct}", out[i]);
+        }
+    }
+    Ok(out)
+}
+
+impl C13 {
+    fn check_ops(&self, env: &mut Env, ops: Vec<String>, mut labels: Vec<&'static str>) -> CaseOut {
+        let rendered = ops.join("\n") + "\n";
+        if ops.is_empty() {
+            return CaseOut::skip(String::new(), "no-ops").with_labels(labels);
+        }
+        let t0 = std::time::Instant::now();
+        let actual = match run_ops(&ops) {
+            Ok(a) => a,
+            Err((sig, detail)) => return CaseOut::fail(rendered, sig, detail).with_labels(labels),
+        };
+        let t_run = t0.elapsed();
+        let resp = oracle_call(json!({"op": "judge", "ops": ops, "actual": actual}));
+        if t0.elapsed().as_secs() >= 5 {
+            eprintln!("C13 slow case: boa {:.1}s, oracle judge {:.1}s\n{rendered}", t_run.as_secs_f64(), (t0.elapsed() - t_run).as_secs_f64());
+        }
+        let resp = match resp {
+            Ok(v) => v,
+            Err(e) => {
+                if env.replay {
+                    eprintln!("C13 oracle: {e}");
+                }
+                return CaseOut::skip(rendered, "oracle-error").with_labels(labels);
+            }
+        };
+        let Some(res) = resp["res"].as_array() else { return CaseOut::skip(rendered, "oracle-error").with_labels(labels) };
+        if res.len() != ops.len() {
+            return CaseOut::skip(rendered, "oracle-error").with_labels(labels);
+        }
+        let mut nontrivial = false;
+        let mut failure: Option<(String, String)> = None;
+        for (i, r) in res.iter().enumerate() {
+            let f = r["fn"].as_str().unwrap_or("?");
+            labels.push(intern(&format!("op-{f}")));
+            for l in r["labels"].as_array().into_iter().flatten() {
+                if let Some(l) = l.as_str() {
+                    labels.push(intern(l));
+                }
+            }
+            nontrivial |= r["nt"].as_bool().unwrap_or(false);
+            if r["ok"].as_bool() != Some(true) && failure.is_none() {
+                let cls = r["cls"].as_str().unwrap_or("");
+                failure = Some((
+                    format!("{f} {cls}"),
+                    format!("op:       {}\nexpected: {}\nactual:   {}\n{}", ops[i], r["exp"].as_str().unwrap_or(""), actual[i], r["note"].as_str().unwrap_or("")),
+                ));
+            }
+        }
+        match failure {
+            Some((sig, detail)) => {
+                if std::env::var_os("BV_C13_DEBUG").is_some() {
+                    eprintln!("C13 failure: {sig}\n{detail}");
+                }
+                CaseOut::fail(rendered, sig, detail).with_labels(labels)
+            }
+            None => CaseOut::pass(rendered, nontrivial).with_labels(labels),
+        }
+    }
+}
 
 impl Prop for C13 {
     fn id(&self) -> &'static str {
         "C13"
     }
-    fn streams(&self, _tier: Tier) -> Vec<Stream> {
-        vec![]
+    fn streams(&self, tier: Tier) -> Vec<Stream> {
+        let m = if tier == Tier::Quick { 1 } else { 50 };
+        vec![Stream::new("doubles", 12_000 * m, 96).batch(150), Stream::new("texts", 6_000 * m, 200).batch(150)]
     }
     fn rule(&self) -> String {
-        "stub".into()
+        "stream doubles: one double per case built from the tape as a structured pattern (power of 2 / power of 10 +-0..2 ulp, subnormal and min-normal boundaries, 2^53/2^31/2^32/2^63 neighbourhoods, the 1e21 / 1e-7 / 1e-6 notation thresholds +-2 ulp, exact decimal ties j/2^(f+1) and m5*10^k and their 1-ulp neighbours built with exact arithmetic, short decimals, tape-uniform bit patterns, specials, +- each), handed to the script as a bit pattern, with ~9 ops: String/toString/template/''+x/JSON.stringify and the Number(String(x)) round trip, toString(radix 2..36 and out of range), toFixed/toExponential/toPrecision with digit counts 0..100 (and undefined / out of range); stream texts: one text per case (shortest form, 17-40 digit forms, exponent forms, zero/whitespace padding, 0x/0o/0b, exact halfway decimal strings between adjacent doubles +- a tiny amount, 19-400 digit integers, radix digit strings, malformed spellings) through Number, unary +, parseFloat, parseInt (radix 2..36/undefined), Number(BigInt(s)) for long integers and, when it is one token, as a numeric literal in source; expectations from exact rational arithmetic (py_c13.py). non-trivial = the value is a halfway/boundary/subnormal/threshold case (within 2 ulp of a power of 2 or 10, subnormal, near 2^53, exact decimal tie) or needs more than 15 significant digits, or the radix is not 10, or the digit count is above 20; distinct = distinct op list".into()
     }
-    fn run_case(&self, _env: &mut Env, _stream: &str, _index: u64, _tape: &[u8]) -> CaseOut {
-        CaseOut::skip(String::new(), "stub")
+    fn assumptions(&self) -> Vec<String> {
+        vec![
+            "python3 int/int true division and fractions.Fraction are exact / correctly rounded; repr(float) is the shortest round-trip digit string closest to the value".into(),
+            "BigUint64Array/Float64Array aliasing, BigInt('0x..') and BigInt.prototype.toString(16) in boa transport bit patterns faithfully (a fault there shows up as a failure, not as a pass)".into(),
+            "where ECMA-262 permits several answers (more than 20 significant digits, parseInt in radices other than 2,4,8,10,16,32, last digit of the shortest form) every permitted answer is accepted; toString(radix) digits are required exactly for power-of-two radices and integers up to 2^53 and to within 1 ulp otherwise".into(),
+        ]
+    }
+    fn run_case(&self, env: &mut Env, stream: &str, _index: u64, tape: &[u8]) -> CaseOut {
+        let req = json!({"op": "gen", "stream": stream, "tape": crate::driver::hex(tape), "exclude": exclusions()});
+        let t0 = std::time::Instant::now();
+        let resp = oracle_call(req);
+        if t0.elapsed().as_secs() >= 5 {
+            eprintln!("C13 slow gen: {:.1}s stream {stream} tape {}", t0.elapsed().as_secs_f64(), crate::driver::hex(tape));
+        }
+        let resp = match resp {
+            Ok(v) => v,
+            Err(_) => return CaseOut::skip(String::new(), "oracle-error"),
+        };
+        let ops: Vec<String> = resp["ops"].as_array().into_iter().flatten().filter_map(|v| v.as_str().map(str::to_string)).collect();
+        let labels: Vec<&'static str> = resp["labels"].as_array().into_iter().flatten().filter_map(|v| v.as_str()).map(intern).collect();
+        self.check_ops(env, ops, labels)
+    }
+    fn run_rendered(&self, env: &mut Env, _stream: &str, rendered: &str) -> Option<CaseOut> {
+        let ops: Vec<String> = rendered.lines().map(str::trim_end).filter(|l| !l.is_empty()).map(str::to_string).collect();
+        if ops.is_empty() {
+            return Some(CaseOut::skip(String::new(), "no-ops"));
+        }
+        Some(self.check_ops(env, ops, vec![]))
+    }
+    fn rendered_prefix_lines(&self, _rendered: &str) -> usize {
+        0
     }
 }
